@@ -1,4 +1,5 @@
 import ParryModel.C04.DriverClosed
+import ParryModel.C04.ModelHf2
 import ParryModel.C04.ModelComposite
 /-! C04 protocol handlers, part 2: composite shapes (3-D HeightField, TriMesh, Compound of cuboids, 2-D Polyline) and the
 BVH pruning test `SimdAabb::cast_local_ray`.
@@ -501,7 +502,8 @@ def handlerComposite (fn : String) : Option Handler :=
   -- 2-D heightfield (linear cell walk): not modelled; exact brute force over its segments (no exact-tie rule: the
   -- heightfield computes its vertices in floating point)
   | "rc_hf2" => some {
-      model := fun _ => some "composite-not-modelled"
+      model := fun a => run (do let h ← phf2; let ra ← pray2
+                                pure (fhit2d ((HeightField2.mk h.hs h.sc h.removed).castLocalRayAndGetNormal bigF ⟨ra.o, ra.d⟩ ra.max ra.solid))) a
       oracle := fun a o => withArgs (do let h ← phf2; let ra ← pray2; pure (h, ra)) a fun (h, ra) =>
         if h.sc.x ≤ 0 || h.sc.y ≤ 0 then "skip nonpositive-scale" else
         segsOracle h.segments false (q2 ra.o) (q2 ra.d) ra.maxQ (parseOut2 o) }
